@@ -319,13 +319,13 @@ theorem to2bitAux_aligned {tbl : List Int} (h : ntoiTableOK tbl = true) (dn : Na
     simp only [List.append_assoc, List.singleton_append]
     rfl
 
-theorem pack_length : ∀ s : Bytes, (pack s).length = (s.length + 3) / 4
+theorem pack_length_aux : ∀ s : Bytes, (pack s).length = (s.length + 3) / 4
   | [] => by simp [pack]
   | [_] => by simp [pack]
   | [_, _] => by simp [pack]
   | [_, _, _] => by simp [pack]
   | _ :: _ :: _ :: _ :: rest => by
-    simp only [pack, List.length_cons, pack_length rest]; omega
+    simp only [pack, List.length_cons, pack_length_aux rest]; omega
 
 
 
@@ -471,14 +471,6 @@ def stdCodon (a b c : UInt8) : Option UInt8 :=
 
 def allBases : Bytes := [65, 67, 71, 84, 97, 99, 103, 116]
 
-/-- The 512 accepted triples. -/
-def stdTriples : List (UInt8 × UInt8 × UInt8) :=
-  allBases.flatMap fun a => allBases.flatMap fun b => allBases.map fun c => (a, b, c)
-
-def codonTableOK (tbl : CodonTable) : Bool :=
-  stdTriples.all (fun t => codon tbl t.1 t.2.1 t.2.2 == stdCodon t.1 t.2.1 t.2.2)
-  && tbl.all (fun e => stdCodon e.1.1 e.1.2.1 e.1.2.2 == some e.2)
-
 theorem baseIdx_isSome : ∀ b : UInt8, (baseIdx b).isSome = isDNA b := by
   apply forall_uint8; decide +kernel
 
@@ -495,9 +487,6 @@ theorem baseIdx_lt : ∀ b : UInt8, ∀ i, baseIdx b = some i → i < 4 := by
   · cases h; omega
   · cases h
 
-theorem mem_allBases : ∀ b : UInt8, isDNA b = true → b ∈ allBases := by
-  apply forall_uint8; decide +kernel
-
 theorem stdCodon_isSome (a b c : UInt8) :
     (stdCodon a b c).isSome = (isDNA a && isDNA b && isDNA c) := by
   rw [← baseIdx_isSome, ← baseIdx_isSome, ← baseIdx_isSome]
@@ -510,33 +499,106 @@ theorem stdCodon_isSome (a b c : UInt8) :
   have hl : aaLetters.length = 64 := rfl
   omega
 
+
+/-- Position of a base among the eight accepted bytes `ACGTacgt`. -/
+def i8 (b : UInt8) : Nat :=
+  if b = 65 then 0 else if b = 67 then 1 else if b = 71 then 2 else if b = 84 then 3
+  else if b = 97 then 4 else if b = 99 then 5 else if b = 103 then 6 else if b = 116 then 7 else 0
+
+def un8 (n : Nat) : UInt8 := allBases.getD n 0
+
+/-- Number of an accepted triple, 0 … 511. -/
+def idx (t : UInt8 × UInt8 × UInt8) : Nat := 64 * i8 t.1 + 8 * i8 t.2.1 + i8 t.2.2
+
+/-- Bit set of the triple numbers occurring as keys. -/
+def keyMask (tbl : CodonTable) : Nat := tbl.foldl (fun m e => m ||| 1 <<< idx e.1) 0
+
+/-- Every entry is a triple over `aAcCgGtT` with its standard letter, and all 512
+such triples occur as keys (checked through a 512-bit set, so that the check
+is linear in the table size). -/
+def codonTableOK (tbl : CodonTable) : Bool :=
+  tbl.all (fun e => stdCodon e.1.1 e.1.2.1 e.1.2.2 == some e.2) && keyMask tbl == 2 ^ 512 - 1
+
+theorem i8_lt : ∀ b : UInt8, i8 b < 8 := by
+  apply forall_uint8; decide +kernel
+
+theorem un8_i8 : ∀ b : UInt8, isDNA b = true → un8 (i8 b) = b := by
+  apply forall_uint8; decide +kernel
+
+theorem idx_lt (t : UInt8 × UInt8 × UInt8) : idx t < 512 := by
+  have := i8_lt t.1; have := i8_lt t.2.1; have := i8_lt t.2.2
+  unfold idx; omega
+
+theorem idx_inj (s t : UInt8 × UInt8 × UInt8)
+    (hs : isDNA s.1 = true ∧ isDNA s.2.1 = true ∧ isDNA s.2.2 = true)
+    (ht : isDNA t.1 = true ∧ isDNA t.2.1 = true ∧ isDNA t.2.2 = true)
+    (h : idx s = idx t) : s = t := by
+  have := i8_lt s.1; have := i8_lt s.2.1; have := i8_lt s.2.2
+  have := i8_lt t.1; have := i8_lt t.2.1; have := i8_lt t.2.2
+  unfold idx at h
+  have h1 : i8 s.1 = i8 t.1 := by omega
+  have h2 : i8 s.2.1 = i8 t.2.1 := by omega
+  have h3 : i8 s.2.2 = i8 t.2.2 := by omega
+  have e1 : s.1 = t.1 := by rw [← un8_i8 s.1 hs.1, h1, un8_i8 t.1 ht.1]
+  have e2 : s.2.1 = t.2.1 := by rw [← un8_i8 s.2.1 hs.2.1, h2, un8_i8 t.2.1 ht.2.1]
+  have e3 : s.2.2 = t.2.2 := by rw [← un8_i8 s.2.2 hs.2.2, h3, un8_i8 t.2.2 ht.2.2]
+  obtain ⟨s1, s2, s3⟩ := s
+  obtain ⟨t1, t2, t3⟩ := t
+  simp_all
+
+theorem testBit_foldl_mask (i : Nat) : ∀ (tbl : CodonTable) (m : Nat),
+    (tbl.foldl (fun m e => m ||| 1 <<< idx e.1) m).testBit i
+      = (m.testBit i || tbl.any fun e => idx e.1 == i)
+  | [], m => by simp
+  | e :: rest, m => by
+    rw [List.foldl_cons, testBit_foldl_mask i rest, Nat.testBit_or, Nat.one_shiftLeft,
+      Nat.testBit_two_pow, List.any_cons, Bool.or_assoc]
+    congr 2
+
+set_option exponentiation.threshold 600 in
+theorem mem_of_keyMask {tbl : CodonTable} (h : keyMask tbl = 2 ^ 512 - 1) (i : Nat) (hi : i < 512) :
+    ∃ e ∈ tbl, idx e.1 = i := by
+  have := testBit_foldl_mask i tbl 0
+  rw [show tbl.foldl (fun m e => m ||| 1 <<< idx e.1) 0 = keyMask tbl from rfl, h,
+    Nat.testBit_two_pow_sub_one] at this
+  simp only [hi, decide_true, Nat.zero_testBit, Bool.false_or] at this
+  obtain ⟨e, he, hie⟩ := List.any_eq_true.mp this.symm
+  exact ⟨e, he, by simpa using hie⟩
+
 theorem codon_eq_std {tbl : CodonTable} (h : codonTableOK tbl = true) (a b c : UInt8) :
     codon tbl a b c = stdCodon a b c := by
   simp only [codonTableOK, Bool.and_eq_true, List.all_eq_true, beq_iff_eq] at h
-  obtain ⟨h1, h2⟩ := h
-  by_cases hd : (isDNA a && isDNA b && isDNA c) = true
-  · simp only [Bool.and_eq_true] at hd
-    have hm : (a, b, c) ∈ stdTriples := by
-      simp only [stdTriples, List.mem_flatMap, List.mem_map]
-      exact ⟨a, mem_allBases a hd.1.1, b, mem_allBases b hd.1.2, c, mem_allBases c hd.2, rfl⟩
-    exact h1 _ hm
-  · have hn : stdCodon a b c = none := by
+  obtain ⟨h2, h1⟩ := h
+  have hdna : ∀ e ∈ tbl, isDNA e.1.1 = true ∧ isDNA e.1.2.1 = true ∧ isDNA e.1.2.2 = true := by
+    intro e he
+    have := stdCodon_isSome e.1.1 e.1.2.1 e.1.2.2
+    rw [h2 e he] at this
+    simpa [Bool.and_eq_true, and_assoc] using this.symm
+  unfold codon
+  cases hf : tbl.find? (fun e => e.1 == (a, b, c)) with
+  | some e =>
+    have hm := List.mem_of_find?_eq_some hf
+    have hk := List.find?_some hf
+    simp only [beq_iff_eq] at hk
+    have := h2 e hm
+    rw [hk] at this
+    simp [this]
+  | none =>
+    simp only [Option.map_none]
+    cases hd : (isDNA a && isDNA b && isDNA c) with
+    | false =>
       have := stdCodon_isSome a b c
-      rw [Bool.not_eq_true] at hd
       rw [hd] at this
-      simpa using this
-    rw [hn]
-    unfold codon
-    cases hf : tbl.find? (fun e => e.1 == (a, b, c)) with
-    | none => rfl
-    | some e =>
-      have hm := List.mem_of_find?_eq_some hf
-      have hk := List.find?_some hf
-      have := h2 e hm
-      simp only [beq_iff_eq] at hk
-      rw [hk] at this
-      simp [hn] at this
-
+      cases hc : stdCodon a b c with
+      | none => rfl
+      | some x => simp [hc] at this
+    | true =>
+      exfalso
+      simp only [Bool.and_eq_true] at hd
+      obtain ⟨e, he, hie⟩ := mem_of_keyMask h1 (idx (a, b, c)) (idx_lt _)
+      have heq : e.1 = (a, b, c) := idx_inj e.1 (a, b, c) (hdna e he) ⟨hd.1.1, hd.1.2, hd.2⟩ hie
+      rw [List.find?_eq_none] at hf
+      exact hf e he (by simp [heq])
 
 
 /-! ## translate -/
@@ -627,6 +689,47 @@ theorem mem_codons_dna : ∀ (s : Bytes), (∀ b ∈ s, isDNA b = true) →
     rcases ht with rfl | ht
     · exact ⟨hs _ (by simp), hs _ (by simp), hs _ (by simp)⟩
     · exact mem_codons_dna rest (fun x hx => hs x (by simp [hx])) t ht
+
+
+theorem mem_codons_of_mem : ∀ (s : Bytes), s.length % 3 = 0 → ∀ b ∈ s,
+    ∃ t ∈ codons s, b = t.1 ∨ b = t.2.1 ∨ b = t.2.2
+  | [], _, b, hb => by simp at hb
+  | [_], h, _, _ => by simp at h
+  | [_, _], h, _, _ => by simp at h
+  | x :: y :: z :: rest, h, b, hb => by
+    have hl : rest.length % 3 = 0 := by simp only [List.length_cons] at h; omega
+    simp only [List.mem_cons] at hb
+    simp only [codons, List.mem_cons, exists_eq_or_imp]
+    rcases hb with rfl | rfl | rfl | hb
+    · exact Or.inl (Or.inl rfl)
+    · exact Or.inl (Or.inr (Or.inl rfl))
+    · exact Or.inl (Or.inr (Or.inr rfl))
+    · exact Or.inr (mem_codons_of_mem rest hl b hb)
+
+theorem codons_take : ∀ s : Bytes, codons (s.take (s.length / 3 * 3)) = codons s
+  | [] => by simp [codons]
+  | [_] => by simp [codons]
+  | [_, _] => by simp [codons]
+  | x :: y :: z :: rest => by
+    have : (rest.length + 1 + 1 + 1) / 3 * 3 = rest.length / 3 * 3 + 1 + 1 + 1 := by omega
+    simp only [List.length_cons, this, List.take_succ_cons, codons, codons_take rest]
+
+theorem take_length_mod3 (s : Bytes) : (s.take (s.length / 3 * 3)).length % 3 = 0 := by
+  rw [List.length_take, Nat.min_eq_left (by omega)]
+  omega
+
+/-- The amino-acid letter of a triple under the standard code (0 if rejected). -/
+def stdAA (t : UInt8 × UInt8 × UInt8) : UInt8 := (stdCodon t.1 t.2.1 t.2.2).getD 0
+
+theorem stdCodon_of_dna (t : UInt8 × UInt8 × UInt8)
+    (h : isDNA t.1 = true ∧ isDNA t.2.1 = true ∧ isDNA t.2.2 = true) :
+    stdCodon t.1 t.2.1 t.2.2 = some (stdAA t) := by
+  have := stdCodon_isSome t.1 t.2.1 t.2.2
+  rw [h.1, h.2.1, h.2.2] at this
+  unfold stdAA
+  cases hc : stdCodon t.1 t.2.1 t.2.2 with
+  | none => simp [hc] at this
+  | some x => rfl
 
 
 /-! ## Amino-acid names -/
